@@ -242,3 +242,126 @@ def run_scripted(ctx, fails: list, counts: dict):
                         fails.append(("seq:scripted:get_state_dict_for_key-after-new-rank-read-differs", f"get_state_dict_for_key('progress') keys {list(sd.keys())!r}"))
     finally:
         shutil.rmtree(root, ignore_errors=True)
+
+
+def run_statefuls(ctx, fails: list, counts: dict):
+    """unusual but legal statefuls, saved with take and async_take under two knob settings and restored into fresh objects of
+    the same structure: an nn.Module with tied weights and buffers, an optimizer with state, a stateful whose state_dict()
+    hands out views of ONE storage (overlapping, transposed) and the same tensor under two keys, an empty state dict,
+    int / mixed top-level keys, a stateful that returns a NEW dict with new tensors on every call."""
+    import torch
+    from lib.world import safe_gc
+    from torchsnapshot import Snapshot, StateDict
+
+    class Views:
+        def __init__(self, fill):
+            self.base = (torch.arange(24, dtype=torch.float32) if fill else torch.zeros(24)).reshape(4, 6)
+
+        def state_dict(self):
+            b = self.base
+            return {"rows01": b[0:2], "rows12": b[1:3], "t": b.t(), "same_a": b, "same_b": b, "col": b[:, 2], "scalar_view": b[3, 5]}
+
+        def load_state_dict(self, sd):
+            self.loaded = sd
+
+    class Fresh:
+        """state_dict() builds new tensors on every call (nothing to load in place)"""
+        def __init__(self, fill):
+            self.v = 3.0 if fill else 0.0
+            self.loaded = None
+
+        def state_dict(self):
+            return {"x": torch.full((5,), self.v), 1: torch.full((2,), self.v + 1), "n": {"k": int(self.v)}}
+
+        def load_state_dict(self, sd):
+            self.loaded = sd
+
+    def module(fill):
+        m = torch.nn.Sequential(torch.nn.Linear(3, 3, bias=False), torch.nn.BatchNorm1d(3), torch.nn.Linear(3, 3, bias=False))
+        m[2].weight = m[0].weight                      # tied weights
+        with torch.no_grad():
+            for i, p in enumerate(m.parameters()):
+                p.copy_(torch.arange(p.numel(), dtype=torch.float32).reshape(p.shape) + i if fill else torch.zeros_like(p))
+            m[1].running_mean.fill_(0.25 if fill else 0.0)
+        return m
+
+    def optimizer(fill, mod):
+        o = torch.optim.SGD(mod.parameters(), lr=0.1, momentum=0.9)
+        if fill:
+            mod(torch.ones(2, 3)).sum().backward()
+            o.step()
+        return o
+    root = ctx.scratch("seqst")
+    saved_env = {k: os.environ.get(k) for k in KNOBS}
+    try:
+        with safe_gc():
+            for kn, use_async in (({}, False), ({"TORCHSNAPSHOT_DISABLE_BATCHING": "1", "TORCHSNAPSHOT_MAX_CHUNK_SIZE_BYTES_OVERRIDE": "16"}, True),
+                                  ({"TORCHSNAPSHOT_SLAB_SIZE_THRESHOLD_BYTES_OVERRIDE": "9", "TORCHSNAPSHOT_PER_RANK_MEMORY_BUDGET_BYTES": "50"}, False)):
+                for k in KNOBS:
+                    os.environ.pop(k, None)
+                os.environ.update(kn)
+                path = os.path.join(root, f"s{len(kn)}{int(use_async)}")
+                m1 = module(True)
+                src = {"views": Views(True), "fresh": Fresh(True), "mod": m1, "opt": optimizer(True, m1), "empty": StateDict(), 7: StateDict(a=1)} \
+                    if False else {"views": Views(True), "fresh": Fresh(True), "mod": m1, "opt": optimizer(True, m1), "empty": StateDict()}
+                before = {k: {kk: (vv.clone() if isinstance(vv, torch.Tensor) else vv) for kk, vv in v.state_dict().items()} for k, v in src.items() if k in ("views", "mod")}
+                counts["statefuls"] = counts.get("statefuls", 0) + 1
+                try:
+                    if use_async:
+                        Snapshot.async_take(path, src).wait()
+                    else:
+                        Snapshot.take(path, src)
+                except Exception as e:  # noqa
+                    fails.append((f"seq:statefuls:take-raised:{type(e).__name__}", f"take of unusual statefuls raised {type(e).__name__}: {str(e)[:160]} [knobs {kn}]"))
+                    continue
+                m2 = module(False)
+                dst = {"views": Views(False), "fresh": Fresh(False), "mod": m2, "opt": optimizer(False, m2), "empty": StateDict()}
+                try:
+                    Snapshot(path).restore(dst)
+                except Exception as e:  # noqa
+                    fails.append((f"seq:statefuls:restore-raised:{type(e).__name__}", f"restore of unusual statefuls raised {type(e).__name__}: {str(e)[:160]} [knobs {kn}]"))
+                    continue
+                want_v = Views(True).state_dict()
+                got_v = dst["views"].loaded
+                d = None
+                if list(got_v.keys()) != list(want_v.keys()):
+                    d = f"views: keys {list(got_v.keys())} vs {list(want_v.keys())}"
+                else:
+                    for kk in want_v:
+                        d = d or sg.equal_exact(got_v[kk].contiguous(), want_v[kk].contiguous(), f"views/{kk}")
+                want_f = Fresh(True).state_dict()
+                got_f = dst["fresh"].loaded
+                if not d and ([(type(x), x) for x in got_f] != [(type(x), x) for x in want_f]):
+                    d = f"fresh: keys {list(got_f)} vs {list(want_f)}"
+                for kk in want_f:
+                    d = d or sg.equal_exact(got_f[kk], want_f[kk], f"fresh/{kk!r}")
+                mref = module(True)
+                oref = optimizer(True, mref)           # (the optimizer step also moves the module's weights, as in the source)
+                ms, md = mref.state_dict(), m2.state_dict()
+                for kk in ms:
+                    d = d or sg.equal_exact(md[kk], ms[kk], f"mod/{kk}")
+                if not d and m2[2].weight is not m2[0].weight:
+                    d = "mod: tied weights are no longer tied after restore"
+                os_, od = oref.state_dict(), dst["opt"].state_dict()
+                if not d and od["param_groups"] != os_["param_groups"]:
+                    d = f"opt: param_groups {od['param_groups']} vs {os_['param_groups']}"
+                for pid, st in os_["state"].items():
+                    for kk, vv in st.items():
+                        if isinstance(vv, torch.Tensor):
+                            d = d or (None if pid in od["state"] and kk in od["state"][pid] else f"opt: state[{pid}][{kk}] missing") \
+                                or sg.equal_exact(od["state"][pid][kk], vv, f"opt/state/{pid}/{kk}")
+                # take must not have modified the source
+                for k, snap0 in before.items():
+                    now = src[k].state_dict()
+                    for kk, vv in snap0.items():
+                        if isinstance(vv, torch.Tensor):
+                            d = d or sg.equal_exact(now[kk].contiguous(), vv.contiguous(), f"source {k}/{kk} after take")
+                if d:
+                    fails.append(("seq:statefuls:restore-differs", f"{'async_take' if use_async else 'take'} + restore of unusual statefuls: {d} [knobs {kn}]"))
+    finally:
+        for k, v in saved_env.items():
+            if v is None:
+                os.environ.pop(k, None)
+            else:
+                os.environ[k] = v
+        shutil.rmtree(root, ignore_errors=True)
